@@ -4,6 +4,8 @@
  * collection, LC_ALL, working directory, bytes written to stderr, and (code, message digest) of the error objects the
  * caller still holds. */
 #include "common.h"
+#include <fenv.h>
+#include <errno.h>
 #include "api.h"
 #include "xrayglob.h"
 #include <locale.h>
@@ -159,10 +161,13 @@ int cmd_c16(int argc, char **argv) {
       Crystal_Array *ua = NULL;
       for (int s = 0; s < len; s++) {
         int r = rndint(0, 99);
-        if (r < 80) { Query q; random_query(&q); Result a = run_query(&q); Result b = reference(&q);
+        if (r < 80) { Query q; random_query(&q);
+          /* ambient process state the library does not own, left behind by the application or another library: a stale errno, sticky floating-point flags */
+          int amb = rndint(0, 7); if (amb == 1) errno = EDOM; else if (amb == 2) errno = ERANGE; else if (amb == 3) { errno = EINVAL; feraiseexcept(FE_INVALID | FE_DIVBYZERO | FE_OVERFLOW); } else if (amb == 4) { errno = 0; feclearexcept(FE_ALL_EXCEPT); }
+          Result a = run_query(&q); Result b = reference(&q);
           fprintf(OUT, "{\"k\":\"q\",\"hist\":%d,\"i\":%d,\"kind\":\"%s\",\"fn\":\"%s\",\"ia\":[%d,%d,%d],\"s\":", h, s, QN[q.kind], q.kind == 0 ? API_TABLE[q.fn].name : QN[q.kind], q.ia[0], q.ia[1], q.ia[2]); jstr(q.s);
           fputs(",\"da\":[", OUT); jd(q.da[0]); fputc(',', OUT); jd(q.da[1]); fputc(',', OUT); jd(q.da[2]);
-          fprintf(OUT, "],\"res\":[%d,%d,%d,%d],\"ref\":[%d,%d,%d,%d]", a.ok, a.code, (int32_t)(a.h >> 32), (int32_t)(a.h & 0xffffffffu), b.ok, b.code, (int32_t)(b.h >> 32), (int32_t)(b.h & 0xffffffffu)); state(); fputs("}\n", OUT); }
+          fprintf(OUT, "],\"amb\":%d,\"res\":[%d,%d,%d,%d],\"ref\":[%d,%d,%d,%d]", amb, a.ok, a.code, (int32_t)(a.h >> 32), (int32_t)(a.h & 0xffffffffu), b.ok, b.code, (int32_t)(b.h >> 32), (int32_t)(b.h & 0xffffffffu)); state(); fputs("}\n", OUT); }
         else if (r < 86) { /* a failing call whose error object the caller keeps */ int slot = rndint(0, NERR - 1); if (held[slot]) { xrl_error_free(held[slot]); held[slot] = NULL; fprintf(OUT, "{\"k\":\"op\",\"hist\":%d,\"i\":%d,\"op\":\"ReleaseError\",\"slot\":%d", h, s, slot); }
           else { int which = rndint(0, 3); if (which == 0) CS_Total(-1, 1.0, &held[slot]); else if (which == 1) CompoundParser("H2O)", &held[slot]); else if (which == 2) Crystal_GetCrystal("nope", NULL, &held[slot]); else LineEnergy(26, 9999, &held[slot]);
             fprintf(OUT, "{\"k\":\"op\",\"hist\":%d,\"i\":%d,\"op\":\"KeepError\",\"slot\":%d", h, s, slot); }
